@@ -74,7 +74,7 @@ pub fn bad_header(e: crate::http::Error) -> (r: Error) ensures r is BadHeader { 
 HDR_LOOP_INV = [
     ('aux.parse.loop.idx', 'idx <= res.headers@.len()'),
     ('aux.parse.loop.builder', '''builder.state() == match build_fields(fields, idx as int) {
-                Ok(hs) => Ok::<crate::http::response::Parts, ()>(crate::http::response::Parts { version: version, status: status, headers: hs }), Err(e) => Err(e) }'''),
+                Ok(hs) => Ok::<crate::http::response::BParts, ()>(crate::http::response::BParts { version: version, status: status, headers: hs }), Err(e) => Err(e) }'''),
     ('aux.parse.loop.slots', 'httparse::slots_hold(res.headers@, fields) && fields.len() == res.headers@.len()'),
 ]
 
@@ -175,7 +175,7 @@ FN('try_parse_partial_response', props=['C05', 'C20', 'C12'], ret='r',
                   ('aux.partial.loop.idx', 'idx <= res.headers@.len() && idx <= total && total == fields.len() && total <= res.headers@.len()'),
                   ('aux.partial.loop.prefix', 'nonempty_prefix(fields, idx as int) == idx'),
                   ('aux.partial.loop.builder', '''builder.state() == match build_fields(fields, idx as int) {
-                Ok(hs) => Ok::<crate::http::response::Parts, ()>(crate::http::response::Parts { version: version, status: status, headers: hs }), Err(e) => Err(e) }'''),
+                Ok(hs) => Ok::<crate::http::response::BParts, ()>(crate::http::response::BParts { version: version, status: status, headers: hs }), Err(e) => Err(e) }'''),
                   ('aux.partial.loop.slots', 'httparse::slots_hold(res.headers@, fields) && forall|i: int| total <= i < res.headers@.len() ==> (#[trigger] res.headers@[i]).is_empty_slot()'),
               ],
               'ensures': [('aux.partial.loop.exit', 'nonempty_prefix(fields, total) == idx')],
@@ -207,7 +207,7 @@ FN('try_parse_request', props=['C20', 'C12'], ret='r',
               'invariant': [
                   ('aux.request.loop.idx', 'idx <= req.headers@.len()'),
                   ('aux.request.loop.builder', '''builder.state() == match build_fields(fields, idx as int) {
-                Ok(hs) => Ok::<crate::http::request::Parts, ()>(crate::http::request::Parts { version: version, method: method, headers: hs }), Err(e) => Err(e) }'''),
+                Ok(hs) => Ok::<crate::http::request::BParts, ()>(crate::http::request::BParts { version: version, method: method, headers: hs }), Err(e) => Err(e) }'''),
                   ('aux.request.loop.slots', 'httparse::slots_hold(req.headers@, fields) && fields.len() == req.headers@.len()'),
               ],
               'decreases': 'req.headers@.len() - idx'}},
